@@ -216,3 +216,10 @@ func vAnyOf(label string) (any, vInfo) {
 		return vNondet[uintptr](label + ".v"), vInfo{}
 	}
 }
+
+func asNode(v any) Node {
+	if v == nil {
+		return nil
+	}
+	return v.(Node)
+}
